@@ -39,6 +39,7 @@ type c04Case struct {
 	script   *Script
 	expect   string // "forward" | "503-unknown-host" | "429-gate" | "503-no-endpoint" | "429-flow" | "429-flow-events" | "403-impersonation"
 	connList []string
+	slow     time.Duration // how long the upstream takes before it answers
 }
 
 // RunC04: forwarding fidelity and well-formed terminations.
@@ -99,7 +100,11 @@ func RunC04(r *sim.Run) {
 			resource = ""
 		}
 		var path string
-		if resource == "" {
+		if resource == "" && t.Draw(2) == 0 {
+			// non-resource URLs of every depth, discovery documents among them
+			path = []string{"/apis", "/api", "/version", "/apis/apps", "/api/v1", "/apis/apps/v1", "/apis/metrics.k8s.io/v1beta1", "/openapi/v2",
+				"/healthz/poststarthook/x", "/custom/a/b", "/custom/a/b/c/d", "/apis/apps/v1/", "/metrics"}[t.Draw(13)]
+		} else if resource == "" {
 			path = "/custom/" + pathSegs[t.Draw(len(pathSegs))]
 			if t.Draw(3) == 0 {
 				path += "/"
@@ -217,13 +222,18 @@ func RunC04(r *sim.Run) {
 		if sc.Status == 301 {
 			sc.Header.Set("Location", "/elsewhere?x=1")
 		}
-		hold := faults && t.Draw(4) == 0
+		// a slow upstream: it takes its time (up to a minute) before it answers
+		hold := t.Draw(4) == 0
 		sc.Hold = hold
+		if hold {
+			c.slow = []time.Duration{0, 200 * time.Millisecond, 2 * time.Second, 6 * time.Second, 31 * time.Second, 61 * time.Second}[t.Draw(6)]
+		}
 		c.q, c.script = q, sc
 		w.SetScript(id, sc)
 		cases = append(cases, c)
 	}
 
+	slowed := 0
 	injected := map[string]int{}
 	midStream := map[string]bool{}
 	for _, c := range cases {
@@ -237,6 +247,10 @@ func RunC04(r *sim.Run) {
 			}
 			p := pts[0]
 			out := UpRespond
+			if p.Kind == "upstream" && c.slow > 0 {
+				w.Advance(c.slow)
+				slowed++
+			}
 			if p.Kind == "upstream" && faults && t.Draw(2) == 0 {
 				out = []int{UpResetBefore, UpTruncate}[t.Draw(2)]
 				injected[c.q.ID] = out
@@ -471,6 +485,7 @@ func RunC04(r *sim.Run) {
 	r.ProbeN("forwarded_checked", nFwd)
 	r.ProbeN("terminated_checked", nTerm)
 	r.ProbeN("faulted", len(injected))
+	r.ProbeN("slow_upstream_answers", slowed)
 	r.Nontrivial = nFwd > 0
 	var sample []string
 	for i, c := range cases {
